@@ -34,7 +34,8 @@ TRUE_WORDS = ["true", "1", "yes"]
 FALSE_WORDS = ["false", "0", "no"]
 NUM_COLS = ["size", "size", "size", "uid", "gid", "hardlinks", "line_count", "length(name)"]
 TEXT_COLS = ["name", "name", "path", "ext", "dir", "mode"]
-RESERVED_LITS = ["size", "name", "mode", "bin", "true", "0", "1"]
+# words that spell a column / function, in the user's spelling and in the internal (CamelCase) spelling of the column
+RESERVED_LITS = ["size", "name", "mode", "bin", "true", "0", "1", "Name", "Size", "Mode", "Extension", "Path", "Directory", "IsDir"]
 UNDOC_OPS = {"eeq", "ene", "notrx", "notlike"}  # documented; recognised or not is C11's subject - symbols used here
 
 
@@ -192,7 +193,7 @@ def atom(draw, sizes, names, exts, mtimes, uids):
         else:
             op = draw(st.sampled_from(draw(st.sampled_from(NUM_OPS[:6]))))
         return {"kind": "colcol", "col": pair[0], "op": op, "lit": pair[1]}
-    col = draw(st.sampled_from(["name", "name", "ext"]))
+    col = draw(st.sampled_from(["name", "name", "ext", "path", "dir", "mode"]))
     return {"kind": "reserved", "col": col, "op": draw(st.sampled_from(["=", "!=", "===", "!==", "like", "eq"])),
             "lit": draw(st.sampled_from(RESERVED_LITS))}
 
